@@ -669,6 +669,11 @@ func isRightInclude(b byte) (bool, error) {
 
 func doParseKeyAndOptions(field reflect.StructField, value string) (string, *fieldOptions, error) {
 	segments := parseSegments(value)
+	if len(segments) == 0 {
+		// 只含空白的标签没有任何段：与没有标签一样，键取字段名
+		return "", nil, nil
+	}
+
 	key := strings.TrimSpace(segments[0])
 	options := segments[1:]
 
